@@ -155,7 +155,7 @@ def run(ctx):
     def one_mc(m):
         cfg, what, acts = m
         return ctx.mc("Ext_mc", cfg, what=what, require_actions=acts, deadlock=True, workers=max(4, vf.NCPU // 2),
-                      timeout=3000 if not quick else 900, heap="6g")
+                      timeout=3000 if not quick else 900, heap="4g")
     # ---- 2. the implementation (built while TLC runs)
     var = vf.build_variant("hk")
     exe = vf.build_hx(var, "ext.c")
@@ -182,19 +182,26 @@ def run(ctx):
         out = ctx.path("t_%s_%d.ndjson" % (cmd, i))
         rc, err = vf.run_hx(exe, [cmd] + args, out, timeout=3000)
         return cmd, args, out, rc, err
+    # the model runs go on in the background while the implementation is driven and its traces are validated
     from concurrent.futures import ThreadPoolExecutor
-    with ThreadPoolExecutor(max_workers=2) as bg:
-        mc_futs = [bg.submit(one_mc, m) for m in mcs]
+    bg = ThreadPoolExecutor(max_workers=2)
+    mc_futs = [bg.submit(one_mc, m) for m in mcs]
+    try:
         outs = vf.parallel(gen, list(enumerate(jobs)), nproc=max(2, vf.NCPU // 2))
-        mc_res = [f.result() for f in mc_futs]
-    for (cfg, what, acts), r in zip(mcs, mc_res):
-        if r.violation:
-            # a theorem about the model failing is a defect of the model, not of the code
-            raise vf.Infra("Ext model theorem %s violated (%s):\n%s" % (r.violation, cfg, r.state_dump[:2500]))
+    except BaseException:
+        bg.shutdown(wait=True)
+        raise
     ctx.exhaustive = True
     ctx.notes["exhaustive_scope"] = ("model side: every string over Sigma = {00..07,40,41,ff} up to the MaxLen of the cfgs x nb_frames in {1,2,3}, and every "
                                      "interleaving of next/find/reset/set_frame_max on strings up to ItLen; implementation side: the same strings up to "
                                      "length %d exhaustively (ids lifted), everything else sampled" % (4 if quick else 5))
+    def finish_mc():
+        res = [f.result() for f in mc_futs]
+        bg.shutdown(wait=True)
+        for (cfg, what, acts), r in zip(mcs, res):
+            if r.violation:
+                # a theorem about the model failing is a defect of the model, not of the code
+                raise vf.Infra("Ext model theorem %s violated (%s):\n%s" % (r.violation, cfg, r.state_dump[:2500]))
     stats = {}
     crashed = False
     for cmd, args, out, rc, err in outs:
@@ -231,7 +238,12 @@ def run(ctx):
         nparts = max(1, min(vf.NCPU // 2, max(n // 4000, size // 6000000)))
         return cmd, out, vf.validate_cases(ctx, "ExtTrace", "ExtTrace.cfg", out, "C16 " + cmd, nparts=nparts,
                                            heap="3g", timeout=3000)
-    for cmd, out, (rej, total) in vf.parallel(validate, work, nproc=2):
+    try:
+        results = vf.parallel(validate, work, nproc=2)
+    except BaseException:
+        bg.shutdown(wait=True)
+        raise
+    for cmd, out, (rej, total) in results:
         ctx.traces += total - len(rej)
         for p, ln, tr in rej:
             if ln <= 0:
@@ -239,6 +251,7 @@ def run(ctx):
             handle_rejection(ctx, exe, cmd, vf.file_line(p, ln), findings)
         os.remove(out)
     ctx.notes["measured"] = stats
+    finish_mc()
 
 
 def replay(ctx):
